@@ -6,7 +6,7 @@ for id in "$@"; do
   for n in 1 2; do
     d="$SRC/$id/$n"; [ -f "$d/patch.diff" ] || continue
     echo "##### $id/$n"
-    /verif/tools/seeded.sh confirm "$d" 2>&1 | tail -12
+    [ "${SKIP_CONFIRM:-0}" = 1 ] || /verif/tools/seeded.sh confirm "$d" 2>&1 | tail -12
     /verif/tools/seeded.sh check "$d" $id ${EXTRA_IDS:-} 2>&1 | grep -v '^  observed'
   done
 done
